@@ -560,7 +560,7 @@ def check(run):
     run.absorb(core.pool_map('vk.c03_apply', 'hyp_shard', jobs))
     run.exhaustive = True
     run.coverage_extra['exhaustive_parts'] = ['projection patterns x fill orders (arity 2 and 3)', 'conditional truth universe x forms']
-    run.min_class_fraction = {'part:failure': 0.05, 'part:substitution': 0.3}
+    run.min_class_fraction = {'part:failure': 0.05, 'part:substitution': 0.2}
 
 
 def replay(case):
